@@ -6,6 +6,7 @@ package main
 import (
 	"fmt"
 	"go/types"
+	"os"
 	"sort"
 	"strings"
 )
@@ -65,9 +66,18 @@ func (s *Script) Define(prefix, sort string, t Term) Term {
 		return t
 	}
 	n := s.fresh(prefix)
+	if opaqueInts && sort == "Int" && (strings.HasPrefix(t, "(+ ") || strings.HasPrefix(t, "(- ")) {
+		// an opaque constant instead of a macro: the solvers' arithmetic normalisation otherwise
+		// rewrites (+ off (+ i 1)) to (+ off i 1), which no longer matches the pattern (+ off q) of a
+		// quantified fact about the elements of a slice (found on ExactScopeStrategyMatcher.doMatch)
+		s.lines = append(s.lines, fmt.Sprintf("(declare-fun %s () Int)", n), fmt.Sprintf("(assert (= %s %s))", n, t))
+		return n
+	}
 	s.lines = append(s.lines, fmt.Sprintf("(define-fun %s () %s %s)", n, sort, t))
 	return n
 }
+
+var opaqueInts = os.Getenv("GOVC_OPAQUE_INT") != "0"
 
 func isAtom(t Term) bool {
 	return !strings.HasPrefix(t, "(") && !strings.HasPrefix(t, "\"")
